@@ -148,6 +148,31 @@ fn index_cases(rng: &mut Rng, thorough: bool) -> Vec<Case> {
             }
         }
     }
+    // COMPOUND assignment: `a[i] op= b[k]` compiles the destination twice and the value once; every one of
+    // the index expressions keeps its own check (seeded change C10_3 dropped the checks of the right-hand
+    // side while the destination's "already checked" flag was set)
+    for (dst_oob, src_oob) in [(false, false), (false, true), (true, false)] {
+        for form in ["a[i] += b[k];", "a[i] += a[k];", "a[i] -= b[k] + b[k];", "s.a[i] += b[k];", "a[i] += pb^[k];"] {
+            let (i, k) = (if dst_oob { 4 } else { 1 }, if src_oob { 5 } else { 2 });
+            let src = format!(
+                "{HDR}S :: struct {{ g1: i32, a: [3]i32, g2: i32 }};\nidx :: (k: usize) -> usize {{ k }}\n\nmain :: () {{\n    g1 : i32 = 7;\n    a : [3]i32 = i32.[10, 20, 30];\n    g2 : i32 = 9;\n    b : [4]i32 = i32.[1, 2, 3, 4];\n    g3 : i32 = 11;\n    pb := ^b;\n    s := S.{{ g1 = 7, a = i32.[10, 20, 30], g2 = 9 }};\n    i := idx({i});\n    k := idx({k});\n    core.println(\"BEFORE\");\n    {form}\n    core.println(\"AFTER\");\n    core.println(g1);\n    core.println(g2);\n    core.println(g3);\n}}\n"
+            );
+            let oob = dst_oob || src_oob;
+            let mut lines = vec!["BEFORE".to_string()];
+            if !oob {
+                lines.extend(["AFTER".to_string(), "7".into(), "9".into(), "11".into()]);
+            }
+            out.push(Case {
+                what: format!("compound-assign:{form}:dst-{}:src-{}", if dst_oob { "oob" } else { "ok" }, if src_oob { "oob" } else { "ok" }),
+                src,
+                // the model op is asked about the index that is out of range (or the source index when none is)
+                req: if dst_oob { "C10 index 64 1000 3 4 4 1 4".to_string() } else { format!("C10 index 64 1000 4 4 4 0 {k}") },
+                expect_abort: oob,
+                expect_lines: lines,
+                abort_word: "out of bounds",
+            });
+        }
+    }
     // LITERAL indices on slices: there is no compile-time length, so the run-time check is the only
     // one (a literal index at or past the length must abort exactly like a computed one)
     for n in [1u64, 3] {
